@@ -84,6 +84,8 @@ FIXED += [
     ("C16", "22fd575", "INITCAP rewrote white space (`initcap('a   b')` was 3 characters long, tabs became blanks, leading blanks vanished) (audit agent; the check's own reference had mirrored the implementation - corrected to the documentation's wording)", []),
     ("C19", "129a060", "encrypted members and members with an unsupported compression method were silently dropped although their directory entries are complete (audit agent; one generated member in eight is now such a member)", []),
     ("C04", "8af6352", "has_xattrs / capabilities / has_xattr() / xattr() / has_caps() / has_cap() opened the entry: a symbolic link showed its target's attributes, a FIFO in the tree blocked the search for ever, an unreadable file showed no attributes (audit agents; C04 now has an xattr-own case with links, a pipe and an unreadable file, run as root and as nobody)", []),
+    ("C15", "a6b9371", "`-5 % 5`, `0 / -5`, `size * -1` on an empty file printed `-0` (audit agent; C15 asserts that no cell shows a negative zero)", []),
+    ("C10", "134076b", "any exif_* column on a file whose GPS rational has denominator 0 panicked: attempt to divide by zero (audit agent; an 80-byte TIFF of that kind is in C10's tree)", []),
     ("C10", "9b6a0a7", "day('2020-0\u0661-01'): the date pattern matched non-ASCII digits and the integer parse of the capture was unwrapped (found by the eval_total fuzz target after 2e7 executions)", ["date-non-ascii-digit"]),
     ("C10", "69a0b27", "`name from './[a' depth 1 rx`: a malformed pattern in a regexp search root panicked (unwrap of Regex::new)", ["regexp-root-malformed"]),
 ]
